@@ -39,6 +39,7 @@ SPEC = dict(
                 "in-process under crash/kill/torn-upload/recovery-error injection, rows compared by DuckDB scans."),
     technique="Lean 4 invariant proof over an executable model of the compaction cycle (job program and manifest recovery regenerated from Job.Run / recoverManifest), differential correspondence against the real Manager/Job with crash and kill injection",
     factgen=True,
+    clockify=["internal/compaction/manifest.go"],
     hooks={"internal/compaction": "go/hooks/compaction_c09"},
     rewrite=[("internal/compaction/manager.go", _rw_manager),
              ("internal/compaction/subprocess.go", _rw_subprocess)],
